@@ -54,6 +54,26 @@ type parkEntry struct {
 	point string
 	need  Need
 	ch    chan struct{}
+	gate  *windowGate // set by the scheduler before ch is closed when the entry is released as part of a race window
+}
+
+// windowGate lines the members of a race window up before their steps: goroutine wake-ups are tens of microseconds
+// apart, many steps are shorter than that, and without the gate the "concurrent" steps mostly ran one after the other.
+// The members spin on an atomic counter (a synchronisation BEFORE the steps: it orders nothing between the steps
+// themselves, which is what the race detector has to see as unordered). Bounded, so that a member that never arrives
+// (GOMAXPROCS=1, abort) cannot hold the others.
+type windowGate struct {
+	n       int32
+	arrived atomic.Int32
+}
+
+func (g *windowGate) wait() {
+	g.arrived.Add(1)
+	for i := 0; i < 4000 && g.arrived.Load() < g.n; i++ {
+		if i >= 2000 { // first a pure spin (the tightest line-up), then give way in case the others need this thread
+			runtime.Gosched()
+		}
+	}
 }
 
 type Sched struct {
@@ -235,9 +255,13 @@ func (s *Sched) parkAs(name, point string, need Need, rename bool) {
 			}
 		}
 	}
-	s.parked[name] = &parkEntry{name: name, point: point, need: need, ch: ch}
+	e := &parkEntry{name: name, point: point, need: need, ch: ch}
+	s.parked[name] = e
 	s.mu.Unlock()
 	<-ch
+	if g := e.gate; g != nil { // written before close(ch)
+		g.wait()
+	}
 	// lock-free: window members must not synchronise with each other before their step (the race detector would
 	// see a happens-before edge and miss races between them)
 	if s.abortFlag.Load() {
@@ -355,7 +379,7 @@ func (s *Sched) Loop() {
 				desc = append(desc, fmt.Sprintf("%s@%s/%d", name, e.point, e.need))
 			}
 			sort.Strings(desc)
-			fmt.Printf("TRACE step %d parked=%v enabled=%v live=%d readers=%d writer=%v lock=%v pending=%v\n", s.Steps, desc, enabled, s.live, s.readers, s.writerHeld, s.lockHeld, s.lockPending)
+			tracef("TRACE step %d parked=%v enabled=%v live=%d readers=%d writer=%v lock=%v pending=%v\n", s.Steps, desc, enabled, s.live, s.readers, s.writerHeld, s.lockHeld, s.lockPending)
 		}
 		pick := ""
 		var window []string
@@ -408,10 +432,12 @@ func (s *Sched) Loop() {
 			s.Trace = append(s.Trace, pick)
 			s.WindowsOpened++
 			var chans []chan struct{}
+			gate := &windowGate{n: int32(len(window))}
 			for _, n := range window {
 				e := s.parked[n]
 				delete(s.parked, n)
 				s.mix(n, e.point)
+				e.gate = gate
 				chans = append(chans, e.ch)
 			}
 			s.seq++
@@ -465,9 +491,43 @@ func (s *Sched) drain() {
 // SimHook is installed as boltz.SimHook.
 var traceHooks = os.Getenv("DSIM_TRACE") != ""
 
+// DSIM_TRACE=buf keeps the trace in memory (no I/O at the hook points) and dumps it after DSIM_TRACE_AFTER seconds:
+// for runs that block for real, where printing would disturb what is being looked at.
+var (
+	traceBufMu sync.Mutex
+	traceBuf   []string
+)
+
+func tracef(format string, args ...any) {
+	if os.Getenv("DSIM_TRACE") != "buf" {
+		fmt.Printf(format, args...)
+		return
+	}
+	traceBufMu.Lock()
+	traceBuf = append(traceBuf, fmt.Sprintf(format, args...))
+	if len(traceBuf) > 4000 {
+		traceBuf = traceBuf[2000:]
+	}
+	traceBufMu.Unlock()
+}
+
+func init() {
+	if os.Getenv("DSIM_TRACE") == "buf" {
+		secs, _ := strconv.Atoi(os.Getenv("DSIM_TRACE_AFTER"))
+		go func() {
+			time.Sleep(time.Duration(secs) * time.Second)
+			traceBufMu.Lock()
+			for _, l := range traceBuf {
+				fmt.Print(l)
+			}
+			os.Exit(3)
+		}()
+	}
+}
+
 func (s *Sched) SimHook(point string, db *boltz.DbImpl) {
 	if traceHooks {
-		fmt.Printf("TRACE hook %s main=%v goid=%d\n", point, db == s.mainDb, goid())
+		tracef("TRACE hook %s main=%v goid=%d\n", point, db == s.mainDb, goid())
 	}
 	s.mu.Lock()
 	if db != s.mainDb {
@@ -477,12 +537,17 @@ func (s *Sched) SimHook(point string, db *boltz.DbImpl) {
 	switch point {
 	case "reload.rlock.before":
 		if s.lockPending > 0 || s.lockHeld {
+			held := s.lockHeld
 			s.NestedRLockP++
 			name, ok := s.goids[goid()]
 			s.mu.Unlock()
 			if !ok {
 				s.HarnessError("RLock would block on a goroutine that is not a task")
 				panic(abortSig{})
+			}
+			if held && s.onRestore != nil {
+				// the caller waits for the lock a restore holds: it must not be inside a transaction of its own
+				s.onRestore("reload.rlock.blocked", name)
 			}
 			need := NeedRLock
 			s.mu.Lock()
@@ -565,7 +630,7 @@ func (s *Sched) SimHook(point string, db *boltz.DbImpl) {
 // SeamHook is installed as simseam.Hook in the bbolt copy.
 func (s *Sched) SeamHook(site string, key []byte) error {
 	if traceHooks && (strings.HasPrefix(site, "rw.") || strings.HasPrefix(site, "tx.") || site == "batch.solo") {
-		fmt.Printf("TRACE seam %s main=%v goid=%d\n", site, string(key) == s.mainPath, goid())
+		tracef("TRACE seam %s main=%v goid=%d\n", site, string(key) == s.mainPath, goid())
 	}
 	switch site {
 	case "rw.acquired", "rw.released", "tx.committed", "tx.commit.begin":
